@@ -77,6 +77,10 @@ func loadModule(name, dir, goos, goarch string, minPkgs int) *Module {
 	}
 	// E14: expand calls to functions that do not exist in the reference tree (inline.go)
 	var ist inlineStats
+	if rn := detectRenames(pkgs, dir); len(rn) > 0 {
+		ist.Renamed = rn
+		fmt.Printf("normalisation (%s): renamed reference functions recognised by receiver, parameter types and body: %v\n", name, rn)
+	}
 	if os.Getenv("VERIF_NOINLINE") == "" {
 		overlay := map[string][]byte{}
 		for round := 1; round <= 4; round++ {
@@ -237,6 +241,20 @@ func (m *Module) FuncOpt(pkg, spec string) *ssa.Function {
 	p := m.byPath[m.full(pkg)]
 	if p == nil {
 		return nil
+	}
+	// a reference function that was renamed (inline.go, detectRenames)
+	{
+		base, anonSfx := spec, ""
+		if i := strings.Index(spec, "$"); i >= 0 {
+			base, anonSfx = spec[:i], spec[i:]
+		}
+		if nn, ok := renameOldToNew[m.full(pkg)+"."+base]; ok {
+			if i := strings.LastIndex(base, "."); i >= 0 {
+				spec = base[:i+1] + nn + anonSfx
+			} else {
+				spec = nn + anonSfx
+			}
+		}
 	}
 	anon := ""
 	if i := strings.Index(spec, "$"); i >= 0 {
@@ -399,5 +417,62 @@ func fname(fn *ssa.Function) string {
 	if fn == nil {
 		return "<nil>"
 	}
-	return short(fn.String())
+	s := short(fn.String())
+	if len(renameNewToOld) > 0 {
+		top := fn
+		for top.Parent() != nil {
+			top = top.Parent()
+		}
+		if obj, ok := top.Object().(*types.Func); ok && obj.Pkg() != nil {
+			key := obj.Pkg().Path() + "."
+			if sig, ok := obj.Type().(*types.Signature); ok && sig.Recv() != nil {
+				t := sig.Recv().Type()
+				if pt, isP := t.(*types.Pointer); isP {
+					t = pt.Elem()
+				}
+				if nt, isN := t.(*types.Named); isN {
+					key += nt.Obj().Name() + "."
+				}
+			}
+			key += obj.Name()
+			if old, ok := renameNewToOld[key]; ok {
+				// the reference name, so that tables and messages keyed by function keep working
+				if i := strings.Index(s, "."+obj.Name()); i >= 0 {
+					rest := s[i+1+len(obj.Name()):]
+					if rest == "" || rest[0] == '$' {
+						s = s[:i+1] + old + rest
+					}
+				}
+			}
+		}
+	}
+	return s
+}
+
+// refName: the simple name of fn as the reference tree has it (fn.Name(), or the old name of a
+// function recognised as renamed) — the form used in obligation keys.
+func refName(fn *ssa.Function) string {
+	if fn == nil {
+		return "<nil>"
+	}
+	if len(renameNewToOld) == 0 {
+		return fn.Name()
+	}
+	full, plain := fname(fn), short(fn.String())
+	if full == plain {
+		return fn.Name()
+	}
+	// fname replaced the top-level function's name: do the same in the simple name
+	top := fn
+	for top.Parent() != nil {
+		top = top.Parent()
+	}
+	if obj, ok := top.Object().(*types.Func); ok {
+		if i := strings.LastIndex(full, "."); i >= 0 {
+			newFull := full[i+1:] // "old" or "old$1"
+			_ = obj
+			return newFull
+		}
+	}
+	return fn.Name()
 }
